@@ -32,7 +32,7 @@ Definition reg34 (c : pc) : bool := match c with Reg R3 | Reg R4 => true | _ => 
 (* the poll has registered and not yet returned Ready / been re-polled *)
 Definition post_reg (c : pc) (parked : bool) : bool := match c with Acq QPoll2 _ => true | Idle => parked | _ => false end.
 Definition idle_parked (c : pc) (parked : bool) : bool := match c with Idle => parked | _ => false end.
-Definition after_q1 (c : pc) (parked : bool) : bool := match c with Acq QPoll2 Q2 => true | Idle => parked | _ => false end.
+Definition after_q1 (c : pc) (parked : bool) : bool := match c with Acq QPoll2 Q2 | Acq QPoll2 Q3 => true | Idle => parked | _ => false end.
 Definition is_persist_wk (p : pc) : bool := match p with Wk KPersist _ => true | _ => false end.
 Definition is_close2_wk (p : pc) : bool := match p with Wk KClose2 _ => true | _ => false end.
 
